@@ -46,9 +46,13 @@ type constGlobal struct {
 }
 
 // Load loads the given package patterns (relative to the repo) with -tags verif.
+// ExtraLoadEnv: per-property environment for loading the packages (props/<id>.json "env"), e.g.
+// CGO_ENABLED=0 for a package whose cgo part needs headers that are not installed.
+var ExtraLoadEnv []string
+
 func Load(repo string, patterns []string, libDir string, overlay map[string][]byte) (*Engine, error) {
 	cfg := &packages.Config{Mode: packages.LoadAllSyntax, Dir: repo, BuildFlags: []string{"-tags=verif"}, Overlay: overlay,
-		Env: append(os.Environ(), "GOFLAGS=-mod=mod", "GOPROXY=off", "GOSUMDB=off", "GOTOOLCHAIN=local")}
+		Env: append(append(os.Environ(), "GOFLAGS=-mod=mod", "GOPROXY=off", "GOSUMDB=off", "GOTOOLCHAIN=local"), ExtraLoadEnv...)}
 	pkgs, err := packages.Load(cfg, patterns...)
 	if err != nil {
 		return nil, err
